@@ -4,10 +4,10 @@ set -e
 cd "$(dirname "$0")"
 export GOFLAGS=-mod=mod GOPROXY=off GOWORK=off
 mkdir -p harness/bin evidence/replays
-[ -f /repo/go.sum ] && cp /repo/go.sum harness/go.sum
 ( cd harness && ( go build -tags verif,verif_internal -o bin/corr ./cmd/corr && go build -tags verif,verif_internal -o bin/extract ./cmd/extract ) \
    || ( go build -tags verif -o bin/corr ./cmd/corr && go build -tags verif -o bin/extract ./cmd/extract ) )
 ./harness/bin/extract lean/OtpVerif/Gen || true
-( cd harness && for t in $(ls cmd | grep -v -e '^corr$' -e '^extract$'); do go build -tags verif -o bin/$t ./cmd/$t || true; done )
+( cd harness && go build -o bin/ssafacts ./cmd/ssafacts && ./bin/ssafacts ../lean/OtpVerif/Gen/Sites.lean || true )
+( cd harness && go build -race -tags verif -o bin/stress ./cmd/stress || go build -tags verif -o bin/stress ./cmd/stress || true )
 cd lean
 lake build OtpVerif driver 2>&1 | tail -5
